@@ -52,12 +52,16 @@ def gen_cases(tier, seed):
             for prev in (IVL // 4, IVL * 6):
                 cases.append({"t": "send", "size": size, "when": when, "prev_ivl_ms": prev})
             cases.append({"t": "send", "size": size, "when": when, "other_entity": True})
+            for gap in (1, IVL * 3):
+                cases.append({"t": "send", "size": size, "when": when, "same_request_again": gap})
     # the same receiver scenarios while another entity of the process has configured its own fault handler table
     cases += [dict(c, other_entity=True) for c in cases if c["t"] == "recv" and c["n"] <= 2 and c["L"] <= 2]
     # the PDUs before the EOF are spread over (virtual) time: 0.4 / 1 / 2.5 check intervals between them
     cases += [dict(c, spread_ms=sp) for c in cases if c["t"] == "recv" and not c.get("other_entity") and (c["n"] + c["L"]) <= 4 for sp in (IVL * 2 // 5, IVL, IVL * 5 // 2)]
     # the checksum type announced in the Metadata PDU differs from the default the receiver has configured for this sender
     cases += [dict(c, mib_cks="crc32c" if c["cks"] == "crc32" else "crc32") for c in cases if c["t"] == "recv" and not c.get("other_entity") and c["n"] <= 2]
+    # the Metadata PDU announces an unbounded file (size 0), the size is only known from the EOF
+    cases += [dict(c, md_size="unbounded") for c in cases if c["t"] in ("recv", "recv_race") and not c.get("other_entity") and not c.get("mib_cks") and c["n"] <= 2]
     return cases
 
 
@@ -73,8 +77,10 @@ def run_recv(case):
         D = w.D
         tc = prep.tx_conf(w)
         data = w.data
-        md = pdugen.raw("MD", tc, {"size": len(data), "cks": case["cks"], "closure": case["closure"],
+        # (md_size 'unbounded': the sender did not know the file size when it sent the Metadata PDU and announced 0; the EOF's size counts)
+        md = pdugen.raw("MD", tc, {"size": 0 if case.get("md_size") == "unbounded" else len(data), "cks": case["cks"], "closure": case["closure"],
                                    "src_name": w.src_path.as_posix(), "dst_name": w.dst_req_path.as_posix()})
+        obs["cases_with_metadata_announcing_an_unbounded_file"] = int(case.get("md_size") == "unbounded")
         eof = pdugen.raw("EOF", tc, {"size": len(data), "cksum": models.checksum(case["cks"], data)})
 
         def fd(i):
@@ -198,8 +204,10 @@ def run_recv_race(case):
         D = w.D
         tc = prep.tx_conf(w)
         data = w.data
-        md = pdugen.raw("MD", tc, {"size": len(data), "cks": case["cks"], "closure": case["closure"],
+        # (md_size 'unbounded': the sender did not know the file size when it sent the Metadata PDU and announced 0; the EOF's size counts)
+        md = pdugen.raw("MD", tc, {"size": 0 if case.get("md_size") == "unbounded" else len(data), "cks": case["cks"], "closure": case["closure"],
                                    "src_name": w.src_path.as_posix(), "dst_name": w.dst_req_path.as_posix()})
+        obs["cases_with_metadata_announcing_an_unbounded_file"] = int(case.get("md_size") == "unbounded")
         eof = pdugen.raw("EOF", tc, {"size": len(data), "cksum": models.checksum(case["cks"], data)})
         fdi = pdugen.raw("FD", tc, {"offset": 4 * i, "data": data[4 * i : 4 * i + 4]})
         p = Probe(w, D)
@@ -269,6 +277,18 @@ def run_send(case):
             w.cfg["seq_start"] = w.cfg["seq_start"] + 1
             vclock.advance(IVL * 10)
             obs["send_cases_after_transfer_with_other_check_interval"] = 1
+        if case.get("same_request_again"):
+            # the user's put request leaves mode and closure to the MIB; it was used once while the MIB entry did not ask for closure, the
+            # user then switched closure on in the MIB and hands the very same request object in again
+            w.cfg["req_mode"], w.cfg["req_closure"] = None, None
+            w.rc_dst_at_src.closure_requested = False
+            if not prep.src_to(w, "IDLE_AFTER_TRANSACTION"):
+                return [{"clause": "harness-could-not-complete-first-transfer", "step": w.S.h.step.name}], obs, None
+            w.rc_dst_at_src.closure_requested = True
+            w.reuse_last_request = True
+            w.cfg["seq_start"] = w.cfg["seq_start"] + 1
+            vclock.advance(case["same_request_again"])
+            obs["send_cases_with_the_same_request_object_after_a_mib_change"] = 1
         if case.get("pace"):
             w.put()
             for _ in range(case["size"] + 10):
@@ -328,4 +348,5 @@ def exhaustive(tier):
     return True
 
 
-REQUIRED = {"recv_cases": 500, "recv_success": 50, "recv_fault": 50, "send_cases": 6, "race_cases": 100, "cases_next_to_other_entity_with_own_fault_table": 50, "sender_check_limit_faults": 2, "send_cases_with_paced_link": 6, "recv_cases_with_pdus_spread_over_time": 50, "send_cases_after_transfer_with_other_check_interval": 4, "recv_cases_metadata_checksum_type_differs_from_mib": 50, "expiries": 500}
+REQUIRED = {"recv_cases": 500, "recv_success": 50, "recv_fault": 50, "send_cases": 6, "race_cases": 100, "cases_next_to_other_entity_with_own_fault_table": 50, "sender_check_limit_faults": 2, "send_cases_with_paced_link": 6, "recv_cases_with_pdus_spread_over_time": 50, "send_cases_after_transfer_with_other_check_interval": 4, "recv_cases_metadata_checksum_type_differs_from_mib": 50, "expiries": 500,
+            "cases_with_metadata_announcing_an_unbounded_file": 100, "send_cases_with_the_same_request_object_after_a_mib_change": 6}
